@@ -165,6 +165,7 @@ def classify(res, wmap, rs_text, unit):
         return None
 
     failures = []
+    vir_ok = False
     for d in res["diags"]:
         lvl = d.get("level")
         msg = d.get("message", "")
@@ -176,6 +177,22 @@ def classify(res, wmap, rs_text, unit):
             raise Undecided("compile error in woven unit %s: %s" % (unit, d.get("rendered", msg)[:3000]))
         if any(u in msg for u in UNDECIDED_MSGS):
             raise Undecided("solver gave up (unit %s): %s" % (unit, d.get("rendered", msg)[:2000]))
+        if msg.startswith("loop must have a decreases clause"):
+            # a loop without a termination measure in a function that is not allowed to wait for a peer:
+            # the termination obligation of C14 / C17 ("returns within a bounded number of steps") that was
+            # discharged on the unchanged tree (no such loop) is no longer discharged
+            sp = (d.get("spans") or [{}])[0]
+            fn = func_at(sp.get("line_start", 0))
+            blocking = fn is not None and any(o["func"] == fn["func"] and o["id"] == "E.peer" for o in obs)
+            if fn is not None and not blocking:
+                src = src_at(sp["line_start"])
+                failures.append({"kind": "implicit-termination", "id": "O-terminates", "props": ["C14", "C18"] + (["C17"] if unit == "u2" else []),
+                                 "func": fn["func"], "text": "every loop of a function that must not wait has a termination measure (decreases)",
+                                 "exit_text": src_line_text(src, wmap) if src else "", "src": src, "message": msg, "rendered": d.get("rendered", ""),
+                                 "ob_idx": None, "unit": unit})
+                vir_ok = True
+                continue
+            raise Undecided("a loop without a loop contract in %s (unit %s): %s" % (fn["func"] if fn else "?", unit, d.get("rendered", msg)[:2000]))
         if not any(msg.startswith(v) or v in msg for v in VERIFY_MSGS):
             raise Undecided("unclassified Verus error (unit %s): %s" % (unit, d.get("rendered", msg)[:3000]))
         spans = d.get("spans", [])
@@ -250,7 +267,7 @@ def classify(res, wmap, rs_text, unit):
             "exit_text": exit_text, "src": src, "message": msg, "rendered": d.get("rendered", ""),
             "ob_idx": ob["idx"] if ob is not None else None, "unit": unit,
         })
-    if vr.get("encountered-vir-error"):
+    if vr.get("encountered-vir-error") and not vir_ok:
         raise Undecided("Verus reported an unsupported construct / VIR error (unit %s): %s" % (unit, "\n".join(x.get("rendered", "") for x in res["diags"])[-3000:]))
     # shape obligations recorded by the weaver itself
     for o in obs:
@@ -335,6 +352,13 @@ def verify_unit(here, repo, unit, tmp, seed, tier):
     vrs = os.path.join(tmp, unit + "_vac.rs")
     vmp = os.path.join(tmp, unit + "_vac.map.json")
     wmap, wlog = weave(here, repo, unit, rs, mp, False)
+    if os.environ.get("VERIF_DEV_NOVAC"):
+        # development sweeps only: no vacuity pass
+        wmap["_repo"] = repo
+        res = run_verus(rs, None, None, 8)
+        rs_text = open(rs).read()
+        return {"unit": unit, "map": wmap, "res": res, "vres": None, "failures": classify(res, wmap, rs_text, unit), "vac_total": 0,
+                "vac_unreached": [], "weave_log": wlog, "stability": None, "rs": rs, "rs_text": rs_text}
     vmap, _ = weave(here, repo, unit, vrs, vmp, True)
     wmap["_repo"] = repo
     vmap["_repo"] = repo
@@ -384,7 +408,8 @@ def verify_unit(here, repo, unit, tmp, seed, tier):
     if vres["json"] is None:
         raise Undecided("verus (vacuity pass) produced no JSON: " + "\n".join(vres["raw"])[-1500:])
     failed_lines = set()
-    for d in vres["diags"]:
+    vac_skipped = any(d.get("level") == "error" and d.get("message", "").startswith("loop must have a decreases clause") for d in vres["diags"])
+    for d in ([] if vac_skipped else vres["diags"]):
         if d.get("level") == "error":
             m = d.get("message", "")
             if d.get("code") or not (m.startswith("aborting due to") or any(m.startswith(v) or v in m for v in VERIFY_MSGS) or any(u in m for u in UNDECIDED_MSGS)):
@@ -392,7 +417,7 @@ def verify_unit(here, repo, unit, tmp, seed, tier):
         for s in d.get("spans", []):
             failed_lines.add(s["line_start"])
     vac_obs = []
-    for o in vmap["obligations"]:
+    for o in ([] if vac_skipped else vmap["obligations"]):
         if o["kind"] == "vacuity":
             for (a, b) in o.get("sites", []):
                 vac_obs.append({"func": o["func"], "out_line": a, "out_end_line": b})
@@ -445,7 +470,8 @@ def main(argv, here):
     seed = int(os.environ.get("VERIF_SEED", "0") or 0)
     if prop == "ALL":
         # development mode: every unit, every obligation, no evidence file of its own
-        P.PROPS["ALL"] = P.mk(["u1", "u2", "glue"], [], [], "all obligations (development sweep)")
+        units = os.environ.get("VERIF_DEV_UNITS", "u1,u2,glue").split(",")
+        P.PROPS["ALL"] = P.mk(units, [], [], "all obligations (development sweep)")
     if prop not in P.PROPS:
         print("property %s is not claimed (see MANIFEST.json not_applicable)" % prop)
         return 2
@@ -514,7 +540,7 @@ def run_property(here, repo, prop, cfg, tier, seed, tmp, t0):
         wmap = r["map"]
         if wmap["audit_failures"]:
             raise Undecided("fidelity audit failed: %s" % wmap["audit_failures"])
-        obs = [o for o in wmap["obligations"] if (prop in o["props"] or prop == "ALL") and o["kind"] != "shape-failed"]
+        obs = [o for o in wmap["obligations"] if (prop in o["props"] or prop == "ALL")]
         all_obs += [(u, o) for o in obs]
         times = fn_times(r["res"])
         pf = set(o["func"] for o in obs)
@@ -550,7 +576,7 @@ def run_property(here, repo, prop, cfg, tier, seed, tmp, t0):
     import kani_engine
     extra_obs, extra_failed, extra_bounded, extra_cmds, extra_wall, kani_artefacts = [], [], [], [], 0.0, []
     try:
-        extra = kani_engine.run(prop, tier, here, repo, tmp, seed)
+        extra = None if os.environ.get("VERIF_DEV_NOKANI") else kani_engine.run(prop, tier, here, repo, tmp, seed)
     except RuntimeError as e:
         raise Undecided("kani: %s" % e)
     if extra:
@@ -599,7 +625,7 @@ def run_property(here, repo, prop, cfg, tier, seed, tmp, t0):
     n_obs = len(all_obs) + len(extra_obs) + len(lemma_obs)
     n_failed_named = len([1 for (u, o) in all_obs if (u, o["idx"]) in failed_ob_keys]) + len(set(f["id"] + f["func"] for f in extra_failed))
     # implicit failures (overflow / panic) count as one extra undischarged obligation each
-    n_implicit = len(set((f["id"], f["func"], f["exit_text"]) for f in failed if f["kind"] in ("implicit", "trusted-leaf-requires")))
+    n_implicit = len(set((f["id"], f["func"], f["exit_text"]) for f in failed if f["kind"] in ("implicit", "trusted-leaf-requires", "implicit-termination")))
     n_failed_named += len(set(f["func"] for f in failed if f["kind"] == "spec-lemma"))
     n_total = n_obs + n_implicit
     n_disch = n_obs - n_failed_named
